@@ -23,7 +23,7 @@ ASSUMPTIONS = [
     "chains and machine orders must be acyclic; a step budget on the rebuilding loop's readiness tests (plus a 120 s alarm) turns a hang into a violation",
     "immutability: structural snapshot of the instance (jobs list identity, per-operation machines/duration/ids, name, metadata) before and "
     "after: dispatcher with all observers over a history, every named rule solver, the four graph builders (+ solved graph), "
-    "SingleJobShopGraphEnv episode, Schedule.from_job_sequences/to_dict (the CP solver is not included: it cannot run on symbolic durations)",
+    "SingleJobShopGraphEnv episode, Schedule.from_job_sequences/to_dict and the real ORToolsSolver on a concrete twin built from the path's model (representative, not for-all)",
     "padded arrays are kept exact by the numpy facade",
     "benchmarks mode: the 162 shipped instances (concrete data, enumerated) survive the JSON round trip and their aggregate views equal the definitions",
 ]
@@ -417,6 +417,26 @@ def immutable_harness(eng, sp, inst, desc):
         unchanged("from_job_sequences-and-to_dict")
     env_episode(eng, inst, desc, spec)
     unchanged("single-env-episode")
+    if not desc.flexible:
+        # the CP solver cannot run on symbolic durations: it runs on a concrete twin built from the model of this path
+        from job_shop_lib.constraint_programming import ORToolsSolver
+
+        vals = concrete_values(eng)
+        cinst, _ = D.build_instance(E.Engine("conc", values={f"d{k}": vals[f"d{k}"] for k in range(desc.n_ops)}), sp["shape"], sp["machines"])
+
+        def cviews():
+            return [cinst.durations_matrix, cinst.machines_matrix, [[o.operation_id for o in l] for l in cinst.operations_by_machine],
+                    cinst.job_durations, cinst.machine_loads, [[(list(o.machines), o.duration, o.operation_id) for o in j] for j in cinst.jobs]]
+
+        import copy
+
+        before_c = copy.deepcopy(cviews())
+        try:
+            ORToolsSolver()(cinst)
+        except Exception as ex:
+            eng.fail(f"C14/instance-modified-by/cp-solver-raises-{type(ex).__name__}", f"{ex}"[:200])
+        if cviews() != before_c:
+            eng.fail("C14/instance-modified-by/ORToolsSolver", f"{cviews()} vs {before_c}"[:300])
     D.prove_snap_equal(eng, views_before, cached_views(), "C14/cached-view-modified")
     eng.observe("mk", sched.makespan())
 
